@@ -32,3 +32,7 @@
 (assert (forall ((s Str) (c Int)) (! (=> (>= (slen s) 0) (and (<= (- 1) (str_last s c)) (< (str_last s c) (slen s))
     (=> (>= (str_last s c) 0) (= (select (sarr s) (str_last s c)) c)))) :pattern ((str_last s c)))))
 (assert (forall ((s Str) (c Int) (k Int)) (! (=> (and (>= (slen s) 0) (< (str_last s c) k) (< k (slen s))) (not (= (select (sarr s) k) c))) :pattern ((str_last s c) (select (sarr s) k)))))
+; strings.Split with a one-byte separator: the number of pieces and the pieces themselves (abstract)
+(declare-fun split_count (Str Int) Int)
+(declare-fun split_piece (Str Int Int) Str)
+(assert (forall ((s Str) (c Int)) (! (>= (split_count s c) 1) :pattern ((split_count s c)))))
